@@ -6,3 +6,8 @@ open GlueVerif.C20
 #print axioms unbroadcast_roundtrip
 #print axioms unique_spec
 #print axioms viewShape_slice_length
+#print axioms combineNorm_correct
+#print axioms combineSlices_spec
+#print axioms iterLoop_eq_prod
+#print axioms iterateChunksLoop_partition
+#print axioms iterateChunksLoop_nmax
